@@ -294,11 +294,11 @@ pub fn check_cli(case: &Case, w: usize) -> CheckResult {
         );
     }
     bb::install_simple(&env, &cfg, &beh);
-    // a quarter of the cases with a slow compressor thread (guarded point, 120-250 ms per batch):
+    // a quarter of the cases with a slow compressor thread (guarded point, 600-900 ms per batch):
     // the queue of batches is then still long when the last task of the group has finished
     let slow_compressor = (case.rng_seed >> 40) % 4 == 0;
     let points: Vec<(&str, String)> = if slow_compressor {
-        vec![("MRV_POINTS", format!("log.compressor.data=delay:{}", 120 + (case.rng_seed >> 44) % 130))]
+        vec![("MRV_POINTS", format!("log.compressor.data=delay:{}", 600 + (case.rng_seed >> 44) % 300))]
     } else {
         vec![]
     };
